@@ -1,0 +1,27 @@
+//go:build verif
+
+// Contracts for property C02 (deterministic output), sequential part: the order used to sort the
+// diagnostics of a file is the lexicographic order on (line, column) for equal file paths; the start
+// of the printed needs-cycle is a node of minimal position among the cycle's nodes, whatever the
+// iteration order of the map. Verified by govc.
+
+package actionlint
+
+//@ func (*Pos).IsBefore
+//@   props C02
+//@   anchor
+//@   ensures result == (p.Line < other.Line || (p.Line == other.Line && p.Col < other.Col))
+
+//@ func (ByErrorPosition).Less
+//@   props C02
+//@   anchor
+//@   ensures by[i].Filepath == by[j].Filepath ==> result == (by[i].Line < by[j].Line || (by[i].Line == by[j].Line && by[i].Column < by[j].Column))
+
+// for every iteration order of the map: once a key has been visited, it is not before `start`
+//@ func (*RuleJobNeeds).VisitWorkflowPost
+//@   loop "range edges":
+//@     invariant [C02] forall k: *jobNode :: visited(k) ==> !(k.pos.Line < start.pos.Line || (k.pos.Line == start.pos.Line && k.pos.Col < start.pos.Col))
+
+// name lists embedded in messages are sorted before quoting
+//@ func sortedQuotes
+//@   body_calls [C02] sort.Strings iff true
